@@ -18,7 +18,7 @@ RULE = (
     "scheduler's flush() itself is made to raise (batch flushed by a before-subscriber, flush() override raising, "
     "_try_switch_active_batch raising) and the after event must still fire exactly once. "
     "distinct = program hash (+ evil mode); non-trivial = at least 2 flushes."
-    " Every third run is made with the debug option KEEP_DEPENDENCIES on (tasks keep their dependency lists): the same oracles apply."
+    " At every task step and before every flush all pending batches are looked at (state queries, str) and must stay as they were. Every third run is made with the debug option KEEP_DEPENDENCIES on (tasks keep their dependency lists): the same oracles apply."
 )
 ASSUMPTIONS = ["the pending-batch set is derived from what tasks yielded, i.e. exact for yield-only programs"]
 UNIT_TIMEOUT = {"quick": 150, "thorough": 2400}
@@ -83,7 +83,7 @@ def run_unit(unit, progress):
             except lang.HarnessFault:
                 inc("ref_budget_skips")
                 continue
-        mons = ("flushbook_prio", "refeq", "resume") if yield_only else ("flushbook", "refeq", "resume")
+        mons = ("flushbook_prio", "refeq", "resume", "peek") if yield_only else ("flushbook", "refeq", "resume", "peek")
         pols = tl.policies(prog, rnd, unit.get("nsched", 4), exhaustive_perms=unit["tier"] == "thorough")
         bad = False
         maxfl = 0
